@@ -220,17 +220,25 @@ REPLAY["api"] = replay_api
 
 # ---------------------------------------------------------------- hourly family (stored document, concrete)
 
-def hourly_roundtrip(scaling, solar, route, extra=None):
+def hourly_roundtrip(scaling, solar, route, extra=None, edge_bins=True):
     """a stored hourly model (document in the to_dict() layout) is loaded, re-serialised through `route`, loaded again:
     document, metadata and predictions must survive.  Concrete (pydantic, json, sklearn)."""
     import logging
     logging.disable(logging.CRITICAL)
     from opendsm.eemeter.models.hourly.model import HourlyModel
     from . import hourlyref as H
-    doc = H.document(scaling=scaling, solar=solar, annotated=True, extra=extra)
+    doc = H.document(scaling=scaling, solar=solar, annotated=True, extra=extra, edge_bins=edge_bins)
     src = json.loads(json.dumps(doc))
     pr = []
-    m1 = HourlyModel.from_dict(json.loads(json.dumps(doc)))
+    try:
+        m1 = HourlyModel.from_dict(json.loads(json.dumps(doc)))
+        # the same stored dict serves two loads (two workers, a cache): it must stay a plain, unchanged document
+        HourlyModel.from_dict(doc)
+        HourlyModel.from_dict(doc)
+        if json.loads(json.dumps(doc, default=str)) != src:
+            pr.append("from_dict changed the stored document it was given")
+    except Exception as ex:
+        return [f"stored document cannot be loaded (twice): {type(ex).__name__}: {str(ex)[:140]}"]
     try:
         if route == "json":
             text = m1.to_json()
@@ -258,7 +266,7 @@ def hourly_roundtrip(scaling, solar, route, extra=None):
 
 
 def replay_hourly(inp):
-    pr = hourly_roundtrip(inp["scaling"], inp["solar"], inp["route"], inp.get("extra"))
+    pr = hourly_roundtrip(inp["scaling"], inp["solar"], inp["route"], inp.get("extra"), inp.get("edge_bins", True))
     return bool(pr), "; ".join(pr)
 
 
@@ -271,7 +279,7 @@ def run_hourly(case):
 
     def run():
         cfg = dict(scaling=F.choose("scaling", ["standardscaler", "robustscaler"]), solar=F.choose("solar", [False, True]), route=F.choose("route", ["json", "dict"]),
-                   extra=F.choose("extra", [None, "cloud"]))
+                   extra=F.choose("extra", [None, "cloud"]), edge_bins=F.choose("edge_bins", [True, False]))
         return cfg, hourly_roundtrip(**cfg)
 
     paths = case.explore(run)
@@ -284,6 +292,7 @@ def run_hourly(case):
         case.prove(p, not pr, "hourly model: stored document, metadata and predictions survive load -> write -> load", replay=rp)
         case.regime("hourly model with two time-series features (solar)", cfg["solar"])
         case.regime("hourly model with a supplemental time-series column", cfg["extra"] is not None)
+        case.regime("hourly model fit without edge bins", not cfg["edge_bins"])
     case.sample(dict(family="hourly", variants=len(paths)))
 
 
